@@ -56,7 +56,10 @@ that clause:
   raised sequentially); `C03_propagation_partial` says exactly what survives without this
   clause;
 * original spec: distinct mount destinations, distinct device paths, environment entries
-  `NAME=value` with distinct non-empty names — `guard_spec_duplicate_mounts`.
+  `NAME=value` with distinct non-empty names — `guard_spec_duplicate_mounts`,
+  `guard_spec_duplicate_devices`, `guard_spec_duplicate_env` (entries without `'='` are
+  invisible to `Env.lookup`; they are excluded because `SpecEq` also asserts that both
+  environments are well-formed).
 NOT needed (weaker hypotheses than planned in DESIGN.md): duplicate keys inside one response
 (the ledger rejects a key set twice; duplicate markers are merged), empty keys, set-then-remove
 order inside one response (both models now let the set win), hugepage sizes already in the
@@ -665,6 +668,22 @@ theorem guard_spec_duplicate_mounts :
          one "10" { mounts := [{ destination := str "-/a" }] }] with
      | some (.ok c, .ok s) => some (c.mounts.map Oci.Mount.type, s.mounts.map Oci.Mount.type)
      | _ => none) = some ([str "t2"], [str "t3"]) := by decide
+
+/-- guard `SpecWF`, devices: two original devices on one path -/
+theorem guard_spec_duplicate_devices :
+    (match bothWays { id := str "c", devices := [{ path := str "/dev/x", type := str "t1" }, { path := str "/dev/x", type := str "t2" }] }
+        [one "00" { hasLinux := true, devices := [{ path := str "/dev/x", type := str "t3" }] },
+         one "10" { hasLinux := true, devices := [{ path := str "-/dev/x" }] }] with
+     | some (.ok c, .ok s) => some (c.devices.map Oci.Device.type, s.devices.map Oci.Device.type)
+     | _ => none) = some ([str "t2"], []) := by decide
+
+/-- guard `SpecWF`, environment: a name occurring twice in the original -/
+theorem guard_spec_duplicate_env :
+    (match bothWays { id := str "c", env := [str "A=1", str "A=2"] }
+        [one "00" { env := [{ key := str "A", value := str "3" }] },
+         one "10" { env := [{ key := str "-A" }] }] with
+     | some (.ok c, .ok s) => some (Env.lookup c.env (str "A"), Env.lookup s.env (str "A"))
+     | _ => none) = some (some (str "2"), none) := by decide
 
 /-- the ledger fact is needed: WITHOUT the ledger (folding `replyStep` directly) a limit 5
     followed by a limit 0 would give different memory sections — the ledger rejects the chain -/
